@@ -154,3 +154,12 @@ Proofs/C06/Tract.vos Proofs/C06/Tract.vok Proofs/C06/Tract.required_vos: Proofs/
 Properties/C06.vo Properties/C06.glob Properties/C06.v.beautified Properties/C06.required_vo: Properties/C06.v Engine/Regex.vo Gen/Patterns.vo PyRt/Str.vo Gen/Tables.vo Model/Trs.vo Model/Unpack.vo Model/TractPre.vo Model/Aliquot.vo Model/TractParse.vo Proofs/C06/Tract.vo
 Properties/C06.vio: Properties/C06.v Engine/Regex.vio Gen/Patterns.vio PyRt/Str.vio Gen/Tables.vio Model/Trs.vio Model/Unpack.vio Model/TractPre.vio Model/Aliquot.vio Model/TractParse.vio Proofs/C06/Tract.vio
 Properties/C06.vos Properties/C06.vok Properties/C06.required_vos: Properties/C06.v Engine/Regex.vos Gen/Patterns.vos PyRt/Str.vos Gen/Tables.vos Model/Trs.vos Model/Unpack.vos Model/TractPre.vos Model/Aliquot.vos Model/TractParse.vos Proofs/C06/Tract.vos
+Spec/C07Spec.vo Spec/C07Spec.glob Spec/C07Spec.v.beautified Spec/C07Spec.required_vo: Spec/C07Spec.v Engine/Regex.vo PyRt/Str.vo
+Spec/C07Spec.vio: Spec/C07Spec.v Engine/Regex.vio PyRt/Str.vio
+Spec/C07Spec.vos Spec/C07Spec.vok Spec/C07Spec.required_vos: Spec/C07Spec.v Engine/Regex.vos PyRt/Str.vos
+Proofs/C07/Sweeps.vo Proofs/C07/Sweeps.glob Proofs/C07/Sweeps.v.beautified Proofs/C07/Sweeps.required_vo: Proofs/C07/Sweeps.v Engine/Regex.vo Gen/Patterns.vo PyRt/Str.vo Gen/Tables.vo Model/Trs.vo Model/TractPre.vo Spec/C07Spec.vo Proofs/C18/Lists.vo
+Proofs/C07/Sweeps.vio: Proofs/C07/Sweeps.v Engine/Regex.vio Gen/Patterns.vio PyRt/Str.vio Gen/Tables.vio Model/Trs.vio Model/TractPre.vio Spec/C07Spec.vio Proofs/C18/Lists.vio
+Proofs/C07/Sweeps.vos Proofs/C07/Sweeps.vok Proofs/C07/Sweeps.required_vos: Proofs/C07/Sweeps.v Engine/Regex.vos Gen/Patterns.vos PyRt/Str.vos Gen/Tables.vos Model/Trs.vos Model/TractPre.vos Spec/C07Spec.vos Proofs/C18/Lists.vos
+Properties/C07.vo Properties/C07.glob Properties/C07.v.beautified Properties/C07.required_vo: Properties/C07.v Engine/Regex.vo Gen/Patterns.vo PyRt/Str.vo Gen/Tables.vo Model/Trs.vo Model/TractPre.vo Spec/C07Spec.vo Proofs/C07/Sweeps.vo
+Properties/C07.vio: Properties/C07.v Engine/Regex.vio Gen/Patterns.vio PyRt/Str.vio Gen/Tables.vio Model/Trs.vio Model/TractPre.vio Spec/C07Spec.vio Proofs/C07/Sweeps.vio
+Properties/C07.vos Properties/C07.vok Properties/C07.required_vos: Properties/C07.v Engine/Regex.vos Gen/Patterns.vos PyRt/Str.vos Gen/Tables.vos Model/Trs.vos Model/TractPre.vos Spec/C07Spec.vos Proofs/C07/Sweeps.vos
